@@ -3,6 +3,8 @@
 //   scale  (C15) font = NULL vs unhinted font of P ppm: identical structure, positions scaled by P/upem within rounding
 //   pair   (C14a and others) two font files that must be indistinguishable: self-report and every segment dump equal
 #include "common.hpp"
+#include <algorithm>
+#include <iterator>
 using namespace vf;
 static Stats st;
 
@@ -85,7 +87,16 @@ int main(int argc, char **argv) {
             faces[8 + o] = LIB(gr_make_file_face(fontpath.c_str(), o));
         }
         if (!faces[0]) { st.add("fonts_not_loaded"); st.print(); return 0; }
+        // repertoire = union of what a direct-cmap face (options 0) and a cached-cmap face (options 4) report, so that a code point
+        // only one of the two lookup paths finds is compared (and drawn into texts) too
         std::vector<uint32_t> rep = repertoire(faces[0], 0x20000);
+        if (faces[4]) {
+            std::vector<uint32_t> rep4 = repertoire(faces[4], 0x20000), u;
+            std::set_union(rep.begin(), rep.end(), rep4.begin(), rep4.end(), std::back_inserter(u));
+            if (u.size() != rep.size()) st.add("repertoire_differs_between_cmap_paths");
+            rep.swap(u);
+        }
+        st.add("repertoire_code_points", double(rep.size()));
         std::string rep0 = face_report(faces[0]);
         for (unsigned i = 1; i < 16; ++i) {
             set_case(-1, "self-report font=%s config=%u", fontpath.c_str(), i);
@@ -141,6 +152,10 @@ int main(int argc, char **argv) {
             if ((A == nullptr) != (B == nullptr)) V("null-differs", "font=NULL gives %s, ppm=%g gives %s", A ? "a segment" : "NULL", c.ppm, B ? "a segment" : "NULL");
             else if (A) {
                 std::string da = dump_seg(A, f, nullptr, structure), db = dump_seg(B, f, font, structure);
+                if (getenv("VF_SCALEDBG")) {
+                    DumpOpts full;
+                    printf("D design:\n%s\nD scaled:\n%s\n", dump_seg(A, f, nullptr, full).c_str(), dump_seg(B, f, font, full).c_str());
+                }
                 if (da != db) V("structure", "ppm=%g: %s", c.ppm, first_diff(da, db).c_str());
                 else {
                     const float s = c.ppm / float(upem);      // exactly as Font computes it
